@@ -61,6 +61,9 @@ pub enum Source {
     FreezeSweep {
         strategy: fn(Tier) -> BoxedStrategy<Scenario>,
         cases: fn(Tier) -> u32,
+        /// true: the thread is not suspended for good but held back until no other thread can make
+        /// progress, then runs on (C14: every window of every call is held open once)
+        holds: bool,
     },
     /// a finite family enumerated completely; `index` picks the shard's share
     Exhaustive {
@@ -488,7 +491,7 @@ pub fn run_prop(
                     }
                 }
             }
-            Source::FreezeSweep { strategy, cases } => {
+            Source::FreezeSweep { strategy, cases, holds } => {
                 use proptest::strategy::{Strategy, ValueTree};
                 let n = ((cases(tier) as f64) * scale).ceil().max(1.0) as u32;
                 let rng = TestRng::from_seed(RngAlgorithm::ChaCha, &seed_bytes(seed, def.id, part.name, shard));
@@ -511,6 +514,7 @@ pub fn run_prop(
                             for k in 1..=th.steps.min(FREEZE_MAX_POINTS) {
                                 let mut c = sc.clone();
                                 c.opts.freeze = Some((th.tid, k));
+                                c.opts.freeze_holds = *holds;
                                 let (unknown, _) = acc.eval(part, &c, true);
                                 if !unknown.is_empty() {
                                     failing = Some(c);
